@@ -45,7 +45,7 @@ def run():
         core = [x for x in scs if "/S1+S2/ok/" in x["id"] or "/S2/ok/held" in x["id"] or "/S1/ok/held" in x["id"]]
         rest = [x for x in scs if x not in core]
         scs = core + pick(rest, 100 - len(core), ctx.seed)
-    scs = C.gated("C05") + C.resume_overlap("C05") + C.close_during_outage("C05") + C.handshake_refused("C05") + scs
+    scs = C.gated("C05") + C.resume_overlap("C05") + C.close_during_outage("C05") + C.handshake_refused("C05") + C.reconnected_handler("C05") + scs
     trace = ctx.run_scenarios(scs, "c05", par=8)
     verdicts, _ = ctx.validate(trace, "MonC05")
     ctx.judge(scs, trace, verdicts)
